@@ -362,6 +362,19 @@ def do_replay(prop, path, tier, seed):
     return 3
 
 
+def source_tree():
+    """which tree the verification conditions and the drivers were built from on this run"""
+    import subprocess
+    def git(*a):
+        try:
+            return subprocess.run(["git", "-C", REPO] + list(a), capture_output=True, text=True, timeout=20).stdout.strip()
+        except Exception:
+            return None
+    st = git("status", "--porcelain", "--", "labella")
+    return dict(root=REPO, head=git("rev-parse", "--short", "HEAD"), working_tree_modified=bool(st),
+                modified_files=[l[3:] for l in (st or "").splitlines()][:20])
+
+
 def build_evidence(prop, props, tier, seed, fresults, lresults, obligations, discharged, refuted, unknown, demoted, faults,
                    t2_results, t2_faults, assumed, missing, known_hits, nviol, t0, contracts):
     reg = registry.PROPERTIES[prop]
@@ -420,6 +433,7 @@ def build_evidence(prop, props, tier, seed, fresults, lresults, obligations, dis
         known_findings_hit=sorted(known_hits),
         closure=props,
         extraction_drops="docstrings, comments; nothing else (a construct outside the subset demotes the function to bounded)",
+        source_tree=source_tree(),
     )
     return dict(property_id=prop, tier=tier, seed=seed, level=level, coverage=cov,
                 assumptions=trusted + ["bounded drivers are evidence for their stated scope only"],
